@@ -71,6 +71,9 @@ class SympySimulator(Backend):
         elif isinstance(initial_statevector, Qubit):
             python_statevector = initial_statevector
         elif isinstance(initial_statevector, (np.ndarray, np.matrix)):
+            # A flat array of amplitudes (as returned by Backend.simulate for an empty circuit) is a ket: column vector
+            if initial_statevector.ndim == 1:
+                initial_statevector = initial_statevector.reshape(-1, 1)
             python_statevector = matrix_to_qubit(initial_statevector)
         else:
             raise ValueError(f"The {type(initial_statevector)} type for initial_statevector is not supported.")
